@@ -85,23 +85,35 @@ Proof.
 Qed.
 
 (* ---------- the outcome of pass 1 ---------- *)
+(* the object owned by cell y at (r1, c1) of the new surface is shown: an image always, a wide
+   character unless it is hidden behind another one *)
+Definition shown (o : oracle) (nw : grid cell) (y : cell) (r1 c1 : nat) : bool :=
+  negb (is_wide o y) || negb (hidden o nw r1 c1).
+
 Record P1Spec (o : oracle) (h w : nat) (u : mark) (old nw : grid cell) (M : grid mark)
        (dec : nat -> nat -> bool) (cmds : list cmd) (imgs : list (nat * nat * face * N)) : Prop := {
   sp_dims : gdims M h w;
   (* a cell treated as unchanged is unchanged *)
   sp_same : forall r c, r < h -> c < w -> dec r c = false -> gget old r c = gget nw r c;
   (* a cell treated as changed differs, or was damaged when pass 1 reached it (and then still is,
-     unless something of the new surface covers it) *)
+     unless something shown of the new surface covers it) *)
   sp_dec : forall r c, r < h -> c < w -> dec r c = true ->
            gget old r c <> gget nw r c \/ gget M r c = Some MDamaged
-           \/ exists r1 c1 y, gget nw r1 c1 = Some y /\ ext_covers o y r1 c1 r c = true;
+           \/ exists r1 c1 y, gget nw r1 c1 = Some y /\ shown o nw y r1 c1 = true
+                               /\ ext_covers o y r1 c1 r c = true;
   sp_ign : forall r c, gget M r c = Some MIgnored ->
-           exists r1 c1 y, gget nw r1 c1 = Some y /\ ext_covers o y r1 c1 r c = true;
-  sp_new : forall r1 c1 y r c, gget nw r1 c1 = Some y -> ext_covers o y r1 c1 r c = true -> r < h -> c < w ->
+           exists r1 c1 y, gget nw r1 c1 = Some y /\ shown o nw y r1 c1 = true
+                           /\ ext_covers o y r1 c1 r c = true;
+  sp_new : forall r1 c1 y r c, gget nw r1 c1 = Some y -> shown o nw y r1 c1 = true ->
+           ext_covers o y r1 c1 r c = true -> r < h -> c < w ->
            gget M r c = Some MIgnored \/ (gget M r c = Some MDamaged /\ dec r1 c1 = true);
+  (* the column behind a hidden wide character is repainted *)
+  sp_hid : forall r1 c1 y, gget nw r1 c1 = Some y -> is_wide o y = true -> hidden o nw r1 c1 = true ->
+           S c1 < w -> gget M r1 (S c1) = Some MDamaged;
   sp_old : forall r1 c1 y r c, gget old r1 c1 = Some y -> dec r1 c1 = true ->
            ext_covers o y r1 c1 r c = true -> r < h -> c < w ->
-           (forall r2 c2 z, gget nw r2 c2 = Some z -> ext_covers o z r2 c2 r c = false) ->
+           (forall r2 c2 z, gget nw r2 c2 = Some z -> shown o nw z r2 c2 = true ->
+                            ext_covers o z r2 c2 r c = false) ->
            gget M r c = Some MDamaged;
   sp_forced : u = MDamaged -> forall r c, r < h -> c < w ->
               gget M r c = Some MDamaged \/ gget M r c = Some MIgnored;
@@ -132,6 +144,7 @@ Arguments sp_same {o h w u old nw M dec cmds imgs}.
 Arguments sp_dec {o h w u old nw M dec cmds imgs}.
 Arguments sp_ign {o h w u old nw M dec cmds imgs}.
 Arguments sp_new {o h w u old nw M dec cmds imgs}.
+Arguments sp_hid {o h w u old nw M dec cmds imgs}.
 Arguments sp_old {o h w u old nw M dec cmds imgs}.
 Arguments sp_forced {o h w u old nw M dec cmds imgs}.
 Arguments sp_cmds {o h w u old nw M dec cmds imgs}.
@@ -189,34 +202,49 @@ Section Analysis.
     apply img_at_some. eauto.
   Qed.
 
-  (* anything of N whose extent reaches (r, c) shows up in the denotation's case analysis *)
+  (* anything shown of nw whose extent reaches (r, c) shows up in the denotation's case analysis *)
   Lemma ext_cover_cases : forall r1 c1 y r c,
-    gget nw r1 c1 = Some y -> ext_covers o y r1 c1 r c = true ->
+    gget nw r1 c1 = Some y -> shown o nw y r1 c1 = true -> ext_covers o y r1 c1 r c = true ->
     cover_img o h w nw r c <> None \/ left_wide o nw r c <> None.
   Proof.
-    intros r1 c1 y r c Hy He.
+    intros r1 c1 y r c Hy Hsh He.
     pose proof (good_cells _ _ _ _ GN r1 c1 y Hy) as Hg. unfold cell_good in Hg.
     destruct (ckind y) as [ch|i|g] eqn:Ek.
     - right. apply (ext_covers_char o y ch) in He; auto.
-      assert (cw o ch = 2) by lia. assert (c = S c1) by lia. destruct He as [-> _]. subst c.
-      unfold left_wide. rewrite Hy. unfold is_wide. rewrite Ek, H. simpl. discriminate.
+      assert (Hw2 : cw o ch = 2) by lia. assert (c = S c1) by lia. destruct He as [-> _]. subst c.
+      assert (Hwd : is_wide o y = true) by (unfold is_wide; rewrite Ek, Hw2; reflexivity).
+      unfold shown in Hsh. rewrite Hwd in Hsh. simpl in Hsh. apply negb_true_iff in Hsh.
+      rewrite (proj2 (hidden_S o nw r1 c1 y Hy Hwd Hsh)). discriminate.
     - left. rewrite (ext_covers_img o y i) in He; auto. exact (covered_by_img r1 c1 y i r c Hy Ek He).
     - contradiction.
+  Qed.
+
+  Lemma no_shown_cover : forall r c,
+    cover_img o h w nw r c = None -> hidden o nw r c = false ->
+    forall r2 c2 z, gget nw r2 c2 = Some z -> shown o nw z r2 c2 = true -> ext_covers o z r2 c2 r c = false.
+  Proof.
+    intros r c Hc Hh r2 c2 z Hz Hsh. destruct (ext_covers o z r2 c2 r c) eqn:E; auto.
+    apply left_wide_hidden in Hh.
+    destruct (ext_cover_cases r2 c2 z r c Hz Hsh E); congruence.
   Qed.
 
   Lemma den_plain : forall s r c,
     cover_img o h w s r c = None -> left_wide o s r c = None -> den o h w s r c = own_glyph o s r c.
   Proof. intros. unfold den. rewrite H, H0. reflexivity. Qed.
 
-  (* a wide character of N is never Ignored: nothing else of N reaches its cell *)
+  Lemma wide_is_wide : forall x ch, ckind x = KChar ch -> cw o ch = 2 -> is_wide o x = true.
+  Proof. intros. unfold is_wide. rewrite H, H0. reflexivity. Qed.
+
+  (* a shown wide character of nw is never Ignored: nothing else shown of nw reaches its cell *)
   Lemma wide_owner_not_ignored : forall r c x ch,
-    gget nw r c = Some x -> ckind x = KChar ch -> cw o ch = 2 -> gget M r c <> Some MIgnored.
+    gget nw r c = Some x -> ckind x = KChar ch -> cw o ch = 2 -> hidden o nw r c = false ->
+    gget M r c <> Some MIgnored.
   Proof.
-    intros r c x ch Hx Hk Hw2 Hm.
-    destruct (sp_ign HP r c Hm) as (r1 & c1 & y & Hy & He).
-    destruct (ext_cover_cases r1 c1 y r c Hy He) as [H|H]; apply H.
+    intros r c x ch Hx Hk Hw2 Hh Hm.
+    destruct (sp_ign HP r c Hm) as (r1 & c1 & y & Hy & Hsh & He).
+    destruct (ext_cover_cases r1 c1 y r c Hy Hsh He) as [H|H]; apply H.
     - eapply wide_not_covered; eauto. lia.
-    - eapply wide_left_not_wide; eauto.
+    - apply left_wide_hidden. exact Hh.
   Qed.
 
   Lemma u_empty_of_clean : forall r c, r < h -> c < w ->
@@ -238,28 +266,49 @@ Section Analysis.
     apply cover_img_some in E. destruct E as (Hr0 & Hc0 & f & i & Hi & Hin).
     apply img_at_some in Hi. destruct Hi as (x & Hx & Hk & Hf).
     destruct (sp_new HP r0 c0 x r c Hx) as [H|[_ H]]; auto; try congruence.
-    rewrite (ext_covers_img o x i); auto.
+    - unfold shown, is_wide. rewrite Hk. reflexivity.
+    - rewrite (ext_covers_img o x i); auto.
   Qed.
 
-  (* the cell behind a wide character of nw is Ignored, or the wide character is not skipped *)
+  (* the cell behind a shown wide character of nw is Ignored, or the wide character is not skipped *)
   Lemma behind_wide_cases : forall r c' y ch oldc m',
     r < h -> S c' < w ->
-    gget nw r c' = Some y -> ckind y = KChar ch -> cw o ch = 2 ->
+    gget nw r c' = Some y -> ckind y = KChar ch -> cw o ch = 2 -> hidden o nw r c' = false ->
     gget old r c' = Some oldc -> gget M r c' = Some m' ->
     gget M r (S c') = Some MIgnored \/ skipcond m' oldc y = false.
   Proof.
-    intros r c' y ch oldc m' Hr Hc Hy Hk Hw2 Ho Hm.
-    destruct (sp_new HP r c' y r (S c') Hy) as [H|[_ Hdec]]; auto.
+    intros r c' y ch oldc m' Hr Hc Hy Hk Hw2 Hh Ho Hm.
+    assert (Hsh : shown o nw y r c' = true) by (unfold shown; rewrite Hh; apply orb_true_r).
+    destruct (sp_new HP r c' y r (S c') Hy Hsh) as [H|[_ Hdec]]; auto.
     { apply (ext_covers_char o y ch); auto. lia. }
     right. apply skipcond_false.
     assert (Hni : m' <> MIgnored).
     { intros ->. eapply wide_owner_not_ignored; eauto. }
-    destruct (sp_dec HP r c' Hr ltac:(lia) Hdec) as [Hne|[Hd|(r1 & c1 & y1 & Hy1 & He)]].
+    destruct (sp_dec HP r c' Hr ltac:(lia) Hdec) as [Hne|[Hd|(r1 & c1 & y1 & Hy1 & Hsh1 & He)]].
     - right. split; auto. intros ->. congruence.
     - left. congruence.
-    - exfalso. destruct (ext_cover_cases r1 c1 y1 r c' Hy1 He) as [H|H]; apply H.
+    - exfalso. destruct (ext_cover_cases r1 c1 y1 r c' Hy1 Hsh1 He) as [H|H]; apply H.
       + eapply wide_not_covered; eauto. lia.
-      + eapply wide_left_not_wide; eauto.
+      + apply left_wide_hidden. exact Hh.
+  Qed.
+
+  (* a cell that was hidden and no longer is (and is not under an image) is Damaged *)
+  Lemma unhidden_damaged : forall r c, r < h -> c < w ->
+    hidden o old r c = true -> hidden o nw r c = false -> cover_img o h w nw r c = None ->
+    gget M r c = Some MDamaged.
+  Proof.
+    intros r c Hr Hc Hho Hhn Hcov.
+    destruct c as [|c0]; [discriminate|]. simpl in Hho.
+    destruct (gget old r c0) as [yo|] eqn:Eyo; [|discriminate].
+    apply andb_true_iff in Hho. destruct Hho as [Hwo Hho].
+    destruct (dec r c0) eqn:Ed.
+    - destruct (is_wide_char o yo Hwo) as (ch & Hk & Hw2).
+      apply (sp_old HP r c0 yo r (S c0) Eyo Ed); auto.
+      + apply (ext_covers_char o yo ch); auto. lia.
+      + apply no_shown_cover; auto.
+    - pose proof (sp_same HP r c0 Hr ltac:(lia) Ed) as Hsame. rewrite Eyo in Hsame.
+      apply (sp_hid HP r c0 yo); auto.
+      simpl in Hhn. rewrite <- Hsame, Hwo in Hhn. simpl in Hhn. apply negb_false_iff in Hhn. exact Hhn.
   Qed.
 
   Section OneRow.
@@ -275,60 +324,76 @@ Section Analysis.
     Lemma rn_len : length rn = w.
     Proof. eapply gdims_row; eauto. apply GN. Qed.
 
-    (* the paint that reaches the column of a wide character is that character's own paint *)
-    Lemma wide_owner_paint : forall c' y ch q,
-      gget nw r c' = Some y -> ckind y = KChar ch -> cw o ch = 2 ->
-      In q ps -> pstart q <= c' < pstart q + plen o q ->
+    (* a paint that reaches the column of a shown wide character, and whose own column is shown, is
+       that character's paint *)
+    Lemma cover_of_wide : forall c' y ch q,
+      gget nw r c' = Some y -> ckind y = KChar ch -> cw o ch = 2 -> hidden o nw r c' = false ->
+      In q ps -> pstart q <= c' < pstart q + plen o q -> hidden o nw r (pstart q) = false ->
       q = PChar r c' (cface y) ch.
     Proof.
-      intros c' y ch q Hy Hk Hw2 Hin Hrange.
+      intros c' y ch q Hy Hk Hw2 Hh Hin Hrange Hhq.
       destruct (paints_row_sound o r rn ro rm 0 0 q Hin) as (j & _ & new & oldc & m & chj & Hn & Ho & Hm & Hs & Hkj & Hwj & Hq).
-      rewrite (gget_row nw r rn) in Hy by auto.
+      pose proof Hy as Hyrow. rewrite (gget_row nw r rn) in Hyrow by auto.
       assert (Hgn : gget nw r j = Some new) by (rewrite (gget_row nw r rn); auto).
-      destruct Hq as [[Hns ->]|[-> ->]]; cbn [pstart plen Nat.add] in Hrange.
+      destruct Hq as [[Hns ->]|[-> ->]]; cbn [pstart plen Nat.add] in Hrange, Hhq.
       - destruct (Nat.eq_dec j c') as [->|Hne].
-        + rewrite Hn in Hy. inversion Hy; subst y. rewrite Hkj in Hk. inversion Hk; subst. reflexivity.
+        + rewrite Hn in Hyrow. inversion Hyrow; subst y. rewrite Hkj in Hk. inversion Hk; subst. reflexivity.
         + exfalso.
           pose proof (good_cells _ _ _ _ GN r j new Hgn) as Hg. unfold cell_good in Hg. rewrite Hkj in Hg.
           assert (Hw2j : cw o chj = 2) by lia. assert (c' = S j) by lia. subst c'.
-          assert (Hb : r < h /\ S j < w).
-          { eapply nw_bounds. rewrite (gget_row nw r rn); eauto. }
-          destruct (good_disjoint _ _ _ _ GN r (S j) r j r (S j) new y) as [_ Hc]; auto; try lia.
-          * rewrite (gget_row nw r rn); auto.
-          * unfold occupies. rewrite Hkj. lia.
-          * unfold occupies. rewrite Hk. lia.
+          (* the wide character at j is shown, so column S j is hidden *)
+          destruct (hidden_S o nw r j new Hgn (wide_is_wide new chj Hkj Hw2j) Hhq) as [Hh' _]. congruence.
       - exfalso. destruct (Nat.eq_dec j c') as [->|Hne].
-        + rewrite Hn in Hy. inversion Hy; subst y. rewrite Hkj in Hk. inversion Hk; subst. rewrite Hsp in Hw2. discriminate.
+        + rewrite Hn in Hyrow. inversion Hyrow; subst y. rewrite Hkj in Hk. inversion Hk; subst. rewrite Hsp in Hw2. discriminate.
         + destruct (blank_run_spec new (skipn (S j) rn) (skipn (S j) rm) (c' - j - 1) ltac:(lia))
             as (y' & m'' & Hy' & _ & Heq & _).
           rewrite nth_error_skipn' in Hy'. replace (S j + (c' - j - 1)) with c' in Hy' by lia.
-          rewrite Hy in Hy'. inversion Hy'; subst y'. apply cell_eqb_eq in Heq. subst y.
+          rewrite Hyrow in Hy'. inversion Hy'; subst y'. apply cell_eqb_eq in Heq. subst y.
           rewrite Hkj in Hk. inversion Hk; subst. rewrite Hsp in Hw2. discriminate.
     Qed.
 
-    (* a paint is never owned by the cell behind a wide character *)
-    Lemma owner_not_behind_wide : forall p j' y ch,
-      In p ps -> pstart p = S j' ->
-      gget nw r j' = Some y -> ckind y = KChar ch -> cw o ch = 2 ->
-      gget M r (S j') = Some MIgnored.
+    (* no paint is owned by a hidden cell *)
+    Lemma owner_shown : forall j p, In p ps -> pstart p = j -> hidden o nw r j = false.
     Proof.
-      intros p j' y ch Hin Hst Hy Hk Hw2.
+      induction j as [j IH] using lt_wf_ind. intros p Hin Hst.
+      destruct (hidden o nw r j) eqn:Ehid; auto. exfalso.
+      assert (Hlw : left_wide o nw r j <> None).
+      { intros H. apply left_wide_hidden in H. congruence. }
+      destruct (left_wide o nw r j) as [f|] eqn:El; [|congruence].
+      apply left_wide_some in El. destruct El as (j' & y & -> & Hy & Hwd & Hh & _).
+      destruct (is_wide_char o y Hwd) as (ch & Hk & Hw2).
+      (* the owner's own mark is not Ignored *)
+      destruct (paints_row_sound o r rn ro rm 0 0 p Hin) as (j0 & _ & new & oldc0 & m0 & ch0 & Hn0 & Ho0 & Hm0 & Hs0 & _ & _ & Hq0).
+      assert (Hj0 : j0 = S j').
+      { destruct Hq0 as [[_ ->]|[_ ->]]; cbn [pstart Nat.add] in Hst; auto. }
+      subst j0.
+      assert (Hni : m0 <> MIgnored).
+      { apply skipcond_false in Hs0. destruct Hs0 as [->|[Hs0 _]]; auto. discriminate. }
       assert (Hb : r < h /\ j' < w) by (eapply nw_bounds; eauto).
       pose proof (good_cells _ _ _ _ GN r j' y Hy) as Hg. unfold cell_good in Hg. rewrite Hk in Hg.
       assert (Hfit : S j' < w) by lia.
       destruct (gget_in_bounds old h w r j' ltac:(apply Gold) Hr ltac:(lia)) as (oldc & Ho).
       destruct (gget_in_bounds M h w r j' (sp_dims HP) Hr ltac:(lia)) as (m' & Hm).
-      destruct (behind_wide_cases r j' y ch oldc m' Hr Hfit Hy Hk Hw2 Ho Hm) as [H|Hs]; auto.
-      exfalso.
-      rewrite (gget_row nw r rn) in Hy by auto.
+      destruct (behind_wide_cases r j' y ch oldc m' Hr Hfit Hy Hk Hw2 Hh Ho Hm) as [H|Hs].
+      { rewrite (gget_row M r rm) in H by auto. congruence. }
+      pose proof Hy as Hyrow. rewrite (gget_row nw r rn) in Hyrow by auto.
       rewrite (gget_row old r ro) in Ho by auto. rewrite (gget_row M r rm) in Hm by auto.
-      destruct (paints_row_cover o r rn ro rm 0 0 j' y oldc m' ch ltac:(lia) Hy Ho Hm Hs Hk ltac:(lia))
+      destruct (paints_row_cover o r rn ro rm 0 0 j' y oldc m' ch ltac:(lia) Hyrow Ho Hm Hs Hk ltac:(lia))
         as (q & Hq & Hrange).
-      assert (Hqe : q = PChar r j' (cface y) ch).
-      { eapply wide_owner_paint; eauto. rewrite (gget_row nw r rn); auto. }
+      cbn [Nat.add] in Hrange.
+      assert (Hhq : hidden o nw r (pstart q) = false) by (apply (IH (pstart q) ltac:(lia) q Hq eq_refl)).
+      assert (Hqe : q = PChar r j' (cface y) ch) by (eapply cover_of_wide; eauto).
       pose proof (paints_row_chain o r rn ro rm 0 0) as Hch.
       pose proof (chain_disjoint o _ _ q p Hch Hq Hin) as Hd.
       subst q. simpl in Hd. rewrite Hst, Hw2 in Hd. lia.
+    Qed.
+
+    Lemma wide_owner_paint : forall c' y ch q,
+      gget nw r c' = Some y -> ckind y = KChar ch -> cw o ch = 2 -> hidden o nw r c' = false ->
+      In q ps -> pstart q <= c' < pstart q + plen o q ->
+      q = PChar r c' (cface y) ch.
+    Proof.
+      intros. eapply cover_of_wide; eauto. eapply owner_shown; eauto.
     Qed.
 
     (* the target of a narrow character that is painted *)
@@ -336,20 +401,13 @@ Section Analysis.
       In p ps -> pstart p = j ->
       gget nw r j = Some x -> ckind x = KChar ch -> cw o ch = 1 ->
       gget M r j = Some m -> m <> MIgnored -> redrawn r j = false ->
-      T r j = (glyph_of ch, cface x).
+      T r j = cell_of o ch (cface x).
     Proof.
       intros p j x ch m Hin Hst Hx Hk Hw1 Hm Hni Hred.
       assert (Hb : r < h /\ j < w) by (eapply nw_bounds; eauto).
       unfold T. apply den_narrow; auto.
       - eapply no_kept_cover; eauto. tauto.
-      - destruct (left_wide o nw r j) as [f|] eqn:El; auto. exfalso.
-        unfold left_wide in El. destruct j as [|j']; [discriminate|].
-        destruct (gget nw r j') as [y|] eqn:Ey; [|discriminate].
-        destruct (is_wide o y) eqn:Ew; [|discriminate].
-        unfold is_wide in Ew. destruct (ckind y) as [chy| |] eqn:Eky; try discriminate.
-        apply Nat.eqb_eq in Ew.
-        pose proof (owner_not_behind_wide p j' y chy Hin Hst Ey Eky Ew) as Hi.
-        congruence.
+      - apply left_wide_hidden. eapply owner_shown; eauto.
     Qed.
 
     Lemma conform_row : forall p, In p ps ->
@@ -371,6 +429,7 @@ Section Analysis.
             destruct (redrawn r j) eqn:Ered; auto. right.
             eapply (narrow_owner_target (PChar r j (cface new) ch)); eauto.
           * right. split; auto. right. unfold T. eapply den_wide; eauto.
+            eapply (owner_shown j (PChar r j (cface new) ch)); eauto.
         + simpl. lia.
       - (* a run of blanks *)
         set (n := blank_run new (skipn (S j) rn) (skipn (S j) rm)).
@@ -426,51 +485,49 @@ Section Analysis.
         rewrite (den_under_img o h w old Gold r0 c0 f i r c); auto.
         rewrite (den_under_img o h w nw GN r0 c0 f i r c); auto. }
       destruct (left_wide o nw r c) as [fw|] eqn:Elw.
-      { (* behind a wide character *)
-        unfold left_wide in Elw. destruct c as [|c']; [discriminate|].
-        destruct (gget nw r c') as [y|] eqn:Ey; [|discriminate].
-        destruct (is_wide o y) eqn:Ew; [|discriminate].
-        unfold is_wide in Ew. destruct (ckind y) as [chy| |] eqn:Eky; try discriminate.
-        apply Nat.eqb_eq in Ew.
+      { (* behind a shown wide character *)
+        apply left_wide_some in Elw. destruct Elw as (c' & y & -> & Ey & Ewd & Ehid & _).
+        destruct (is_wide_char o y Ewd) as (chy & Eky & Ew).
         destruct (gget_in_bounds old h w r c' ltac:(apply Gold) Hr ltac:(lia)) as (oldc' & Ho').
         destruct (gget_in_bounds M h w r c' (sp_dims HP) Hr ltac:(lia)) as (m' & Hm').
         destruct (skipcond m' oldc' y) eqn:Es.
-        - (* the wide character is skipped: it is unchanged and shown *)
+        - (* the wide character is skipped: it is unchanged and was shown *)
           left. apply skipcond_true in Es. destruct Es as [Hnd [Hi|Heq]].
           { exfalso. subst m'. eapply wide_owner_not_ignored; eauto. }
           subst oldc'.
           assert (Hue : u = MEmpty).
           { apply (u_empty_of_clean r c'); auto; try lia; try congruence.
             eapply wide_owner_not_ignored; eauto. }
+          assert (Hho : hidden o old r c' = false).
+          { destruct (hidden o old r c') eqn:E; auto. exfalso.
+            assert (gget M r c' = Some MDamaged).
+            { apply unhidden_damaged; auto; try lia. eapply wide_not_covered; eauto. lia. }
+            congruence. }
           unfold okc. rewrite (Hsync Hue). f_equal. unfold T.
-          destruct (den_wide o h w old Gold r c' y chy Ho' Eky Ew) as [_ H1].
-          destruct (den_wide o h w nw GN r c' y chy Ey Eky Ew) as [_ H2]. congruence.
+          destruct (den_wide o h w old Gold r c' y chy Ho' Eky Ew Hho) as [_ H1].
+          destruct (den_wide o h w nw GN r c' y chy Ey Eky Ew Ehid) as [_ H2]. congruence.
         - (* the wide character is painted *)
           right.
-          rewrite (gget_row nw r rn) in Ey by auto.
+          pose proof Ey as Eyrow. rewrite (gget_row nw r rn) in Eyrow by auto.
           rewrite (gget_row old r ro) in Ho' by auto. rewrite (gget_row M r rm) in Hm' by auto.
-          destruct (paints_row_cover o r rn ro rm 0 0 c' y oldc' m' chy ltac:(lia) Ey Ho' Hm' Es Eky ltac:(lia))
+          destruct (paints_row_cover o r rn ro rm 0 0 c' y oldc' m' chy ltac:(lia) Eyrow Ho' Hm' Es Eky ltac:(lia))
             as (q & Hq & Hrange).
-          assert (Hqe : q = PChar r c' (cface y) chy).
-          { eapply wide_owner_paint; eauto. rewrite (gget_row nw r rn); auto. }
+          assert (Hqe : q = PChar r c' (cface y) chy) by (eapply wide_owner_paint; eauto).
           exists q. split; auto. subst q. simpl. lia. }
       (* a plain cell *)
+      assert (Ehid : hidden o nw r c = false) by (apply left_wide_hidden; exact Elw).
       pose proof (good_cells _ _ _ _ GN r c new Hn) as Hg. unfold cell_good in Hg.
       destruct (ckind new) as [ch|i|gl] eqn:Ek.
       2:{ exfalso. apply (covered_by_img r c new i r c Hn Ek (img_covers_self r c new i Hn Ek) Ecov). }
       2:{ contradiction. }
       destruct (skipcond m oldc new) eqn:Es.
-      - left. apply skipcond_true in Es. destruct Es as [Hnd [Hi|Heq]].
-        { exfalso. subst m. destruct (sp_ign HP r c Hm) as (r1 & c1 & y & Hy & He).
-          destruct (ext_cover_cases r1 c1 y r c Hy He); congruence. }
-        subst oldc.
+      - left. apply skipcond_true in Es. destruct Es as [Hnd Hcase].
         assert (Hnot_ign : gget M r c <> Some MIgnored).
-        { intros Hi. destruct (sp_ign HP r c Hi) as (r1 & c1 & y & Hy & He).
-          destruct (ext_cover_cases r1 c1 y r c Hy He); congruence. }
+        { intros Hi. destruct (sp_ign HP r c Hi) as (r1 & c1 & y & Hy & Hsh & He).
+          rewrite (no_shown_cover r c Ecov Ehid r1 c1 y Hy Hsh) in He. discriminate. }
+        destruct Hcase as [Hi|Heq]; [subst m; congruence|].
+        subst oldc.
         assert (Hue : u = MEmpty) by (apply (u_empty_of_clean r c); auto; congruence).
-        assert (Hnone : forall r2 c2 z, gget nw r2 c2 = Some z -> ext_covers o z r2 c2 r c = false).
-        { intros r2 c2 z Hz. destruct (ext_covers o z r2 c2 r c) eqn:E; auto.
-          destruct (ext_cover_cases r2 c2 z r c Hz E); congruence. }
         unfold okc. rewrite (Hsync Hue). f_equal. unfold T.
         rewrite (den_plain nw r c Ecov Elw).
         rewrite den_plain.
@@ -481,23 +538,14 @@ Section Analysis.
           pose proof Hi as Hi2. apply img_at_some in Hi2. destruct Hi2 as (x & Hx & Hkx & Hfx).
           destruct (dec r0 c0) eqn:Ed.
           * assert (gget M r c = Some MDamaged).
-            { apply (sp_old HP r0 c0 x r c Hx Ed); auto. rewrite (ext_covers_img o x i); auto. }
+            { apply (sp_old HP r0 c0 x r c Hx Ed); auto. rewrite (ext_covers_img o x i); auto.
+              apply no_shown_cover; auto. }
             congruence.
           * pose proof (sp_same HP r0 c0 Hr0 Hc0 Ed) as Hsame. rewrite Hsame in Hx.
             apply (covered_by_img r0 c0 x i r c Hx Hkx Hin Ecov).
-        + destruct (left_wide o old r c) as [f|] eqn:Elo; auto. exfalso.
-          unfold left_wide in Elo. destruct c as [|c']; [discriminate|].
-          destruct (gget old r c') as [y|] eqn:Ey; [|discriminate].
-          destruct (is_wide o y) eqn:Ew; [|discriminate].
-          unfold is_wide in Ew. destruct (ckind y) as [chy| |] eqn:Eky; try discriminate.
-          apply Nat.eqb_eq in Ew.
-          destruct (dec r c') eqn:Ed.
-          * assert (gget M r (S c') = Some MDamaged).
-            { apply (sp_old HP r c' y r (S c') Ey Ed); auto; try lia. apply (ext_covers_char o y chy); auto. lia. }
-            congruence.
-          * pose proof (sp_same HP r c' Hr ltac:(lia) Ed) as Hsame. rewrite Hsame in Ey.
-            unfold left_wide in Elw. rewrite Ey in Elw. unfold is_wide in Elw. rewrite Eky, Ew in Elw.
-            discriminate.
+        + apply left_wide_hidden. destruct (hidden o old r c) eqn:E; auto. exfalso.
+          assert (gget M r c = Some MDamaged) by (apply unhidden_damaged; auto).
+          congruence.
       - right.
         rewrite (gget_row nw r rn) in Hn by auto.
         rewrite (gget_row old r ro) in Ho by auto. rewrite (gget_row M r rm) in Hm by auto.
